@@ -53,6 +53,6 @@ Example ex2_denoms_wf : denoms_wf (a_pay_denom (ex_auction 80)) ex2_bids.
 Proof. exact (denoms_wfb_sound _ _ (proj2 ex2_hyps)). Qed.
 Example ex2_refunds :
   map (reserved_of 0 ex2_bids) [1; 2; 3; 4]%N = [150; 67; 40; 0] /\
-  ex2_run ex2_order_b = Some (2 * P, 73, [1; 5; 3; 2]%N, [1; 2; 3]%N, [40; 33; 0; 0], [70; 1; 40; 0]) /\
-  map (matched_count ex2_bids [1; 5; 3; 2]%N) [1; 2; 3]%N = [2; 2; 0].
+  ex2_run ex2_order_a = Some (2 * P, 73, [1; 5; 2; 3]%N, [1; 2; 3]%N, [40; 33; 0; 0], [70; 1; 40; 0]) /\
+  map (matched_count ex2_bids [1; 5; 2; 3]%N) [1; 2; 3]%N = [2; 2; 0].
 Proof. vm_compute. repeat split; reflexivity. Qed.
